@@ -92,10 +92,36 @@ spec fn out_of_order(f: SortFormat, viol: Ordering, keys: Seq<Option<Seq<char>>>
         && cmp_spec(f, prev_key(keys, i).unwrap(), keys[i].unwrap()) == Ok::<Ordering, ()>(viol)
 }
 
-/// comparing line i with its previous key is an error (non-numeric key under numeric format)
+/// C13: "a key that is not a number under numeric format is an error" -- whichever position the key
+/// has in the block (a block with a single key included).
+spec fn key_invalid(f: SortFormat, k: Seq<char>) -> bool {
+    cmp_spec(f, k, k) is Err
+}
+
+/// a key that the format accepts compares Equal with itself (so the first key, which the code compares
+/// with itself, is never reported as out of order)
+proof fn lemma_cmp_reflexive(f: SortFormat, k: Seq<char>)
+    ensures cmp_spec(f, k, k) matches Ok(o) ==> o == Ordering::Equal,
+{
+    axiom_str_cmp_reflexive(k);
+    if parse_f64_spec(k) is Some { axiom_f64_total_cmp_reflexive(parse_f64_spec(k).unwrap()); }
+}
+
+/// line i carries a key that the format does not accept
 spec fn cmp_fails(f: SortFormat, keys: Seq<Option<Seq<char>>>, i: int) -> bool {
-    0 <= i < keys.len() && keys[i] is Some && prev_key(keys, i) is Some
-        && cmp_spec(f, prev_key(keys, i).unwrap(), keys[i].unwrap()) is Err
+    0 <= i < keys.len() && keys[i] is Some && key_invalid(f, keys[i].unwrap())
+}
+
+/// the nearest earlier key is the key of an earlier line
+proof fn lemma_prev_key_is_earlier(keys: Seq<Option<Seq<char>>>, i: int)
+    requires 0 <= i <= keys.len(), prev_key(keys, i) is Some,
+    ensures exists|j: int| 0 <= j < i && #[trigger] keys[j] == prev_key(keys, i),
+    decreases i,
+{
+    if i > 0 {
+        if keys[i - 1] is Some { assert(keys[i - 1] == prev_key(keys, i)); }
+        else { lemma_prev_key_is_earlier(keys, i - 1); let j = choose|j: int| 0 <= j < i - 1 && #[trigger] keys[j] == prev_key(keys, i - 1); assert(keys[j] == prev_key(keys, i)); }
+    }
 }
 
 /// i is the first line at which the scan stops (violation or comparison error)
@@ -221,6 +247,7 @@ fn v1_loop<'a>(
 ) -> (r: anyhow::Result<()>)
     requires
         block_wf(block_with_context.block),
+        violating_ord != Ordering::Equal, // established by V1d ([V1d.post.direction]); checked at the hand-over in VO1
     ensures
         // every key in order (equal neighbours included) => silent
         (forall|i: int| !#[trigger] out_of_order(sort_format, violating_ord, keys_of(re, content_of(block_with_context.block, file_blocks.file_content@)), i))
@@ -274,6 +301,7 @@ fn v1_loop<'a>(
             !(re matches Some(Err(_))) || it.index@ == 0,
         invariant
             block_wf(block_with_context.block),
+            violating_ord != Ordering::Equal,
             keys == keys_of(re, content_of(block_with_context.block, file_blocks.file_content@)),
             ls@.len() == keys.len(),
             ls@.len() <= isize::MAX,
@@ -299,9 +327,21 @@ fn v1_loop<'a>(
 //@edit rule=ghost before=<<if let Some((curr_val, curr_range)) = value>> optional=1
                         assert((match value { Some(p) => Some((p.0@, p.1@.start as int, p.1@.end as int)), None => None }) == key_info(re, line@)); // [V1.assert.key_extraction]
 //@edit rule=ghost before=<<let cmp =>> optional=1
-                                assert(prev_key(keys, line_number as int) == Some(prev_val@) && keys[line_number as int] == Some(curr_val@));
-                                assert(cmp_fails(sort_format, keys, line_number as int) <==> cmp_spec(sort_format, prev_val@, curr_val@) is Err);
-                                assert(out_of_order(sort_format, violating_ord, keys, line_number as int) <==> cmp_spec(sort_format, prev_val@, curr_val@) == Ok::<Ordering, ()>(violating_ord));
+                            assert(keys[line_number as int] == Some(curr_val@));
+                            proof {
+                                lemma_cmp_reflexive(sort_format, curr_val@);
+                                if prev_key(keys, line_number as int) is Some {
+                                    // the previous key is an earlier key, and every earlier key was accepted by the format
+                                    lemma_prev_key_is_earlier(keys, line_number as int);
+                                    let j = choose|j: int| 0 <= j < line_number && #[trigger] keys[j] == prev_key(keys, line_number as int);
+                                    assert(!cmp_fails(sort_format, keys, j));
+                                    assert(prev_val@ == prev_key(keys, line_number as int).unwrap());
+                                } else {
+                                    assert(prev_val@ == curr_val@);
+                                }
+                            }
+                            assert(cmp_fails(sort_format, keys, line_number as int) <==> cmp_spec(sort_format, prev_val@, curr_val@) is Err);
+                            assert(out_of_order(sort_format, violating_ord, keys, line_number as int) <==> cmp_spec(sort_format, prev_val@, curr_val@) == Ok::<Ordering, ()>(violating_ord));
 //@edit rule=E5 find=<<violations.entry(file_path.clone()).or_insert_with(Vec::new).push(>> optional=1
 verif_map_push(violations, file_path.clone(),
 //@edit rule=ghost before=<<break;>> optional=1
